@@ -78,6 +78,7 @@ def check(col, prog, tier, profile, fixture=None):
     col.rule("U3", "no allow(static_mut_refs) suppression on reachable functions", floor=10 if not fixture else 0)
     nstatic_refs = 0
     loads, stores = {}, {}   # shared atomic static -> [(body, bb)] over the whole reachable set
+    refd_statics, late_atomic = set(), []   # statics the reachable set refers to; atomic accesses whose receiver is not a static by name
     for key, b in sorted(reach.items()):
         std_expanded = bool(b.span.get("exp")) and b.span.get("macro_crate") in ("std", "core")
         # ---- U2
@@ -111,6 +112,7 @@ def check(col, prog, tier, profile, fixture=None):
         # ---- U1: statics referenced
         for sk, where in _static_refs(b):
             nstatic_refs += 1
+            refd_statics.add(sk)
             s = statics.get(sk)
             loc = b.loc(where)
             if s is None:
@@ -134,6 +136,8 @@ def check(col, prog, tier, profile, fixture=None):
             nm = fn.get("name") or ""
             if p.startswith(("std::sync::atomic::Atomic", "core::sync::atomic::Atomic")) and (nm in ("load", "store", "swap") or nm.startswith(("fetch_", "compare_exchange"))):
                 tgt = _arg_static(b, t)
+                if tgt is None:
+                    late_atomic.append((b, bb, t, nm))
                 if tgt is not None:
                     if nm != "store":
                         loads.setdefault(tgt, []).append((b, bb, nm))
@@ -142,6 +146,14 @@ def check(col, prog, tier, profile, fixture=None):
     # a shared static behind a lock that the reachable set takes for writing (`static RNG: Mutex<Rng>`; `RNG.lock()`): every
     # access is synchronised - no data race - but the state is one for all threads, so what a thread draws and builds depends
     # on what the others did before and meanwhile
+    # (an atomic reached through `&self` of a type a process-wide static holds is that static's)
+    for b, bb, t, nm in late_atomic:
+        tgt = _static_holding(prog, statics, refd_statics, b, t)
+        if tgt is not None:
+            if nm != "store":
+                loads.setdefault(tgt, []).append((b, bb, nm))
+            if nm != "load":
+                stores.setdefault(tgt, []).append((b, bb, nm))
     for key, b in sorted(reach.items()):
         for bb, t in b.calls():
             fn = t["fn"]
@@ -149,6 +161,8 @@ def check(col, prog, tier, profile, fixture=None):
             nm_ = fn.get("name") or ""
             if ("sync::Mutex" in p_ or "sync::RwLock" in p_ or "sync::poison::mutex::Mutex" in p_ or "sync::poison::rwlock::RwLock" in p_) and nm_ in ("lock", "try_lock", "write", "try_write", "get_mut"):
                 tgt = _arg_static(b, t)
+                if tgt is None:
+                    tgt = _static_holding(prog, statics, refd_statics, b, t)
                 s_ = statics.get(tgt) if tgt is not None else None
                 if s_ is not None and not s_["thread_local"]:
                     col.violation("U1b", "%s|lock-shared|%s" % (util.fkey(b), s_["path"]), b.loc(bb), "%s takes the process-wide static %s (%s) for writing: the accesses are synchronised, but the state is shared by all threads - a thread's priority stream and the shapes of its treaps depend on the progress of other threads (not what the thread would see alone)" % (b.path, s_["path"], s_["ty"]))
@@ -239,6 +253,86 @@ def _static_refs(b):
             walk_op(a, bb)
         walk_op(t.get("op"), bb)
     return out
+
+
+def _split_generics(ty):
+    """head and top-level generic arguments of a type string"""
+    k = ty.find("<")
+    if k < 0 or not ty.endswith(">"):
+        return ty, []
+    parts, depth, cur = [], 0, ""
+    for ch in ty[k + 1:-1]:
+        if ch in "<([":
+            depth += 1
+        elif ch in ">)]":
+            depth -= 1
+        if ch == "," and depth == 0:
+            parts.append(cur.strip())
+            cur = ""
+        else:
+            cur += ch
+    if cur.strip():
+        parts.append(cur.strip())
+    return ty[:k], parts
+
+
+def _contained_types(prog, ty):
+    """type strings stored inside a value of type `ty`: generic arguments (LazyLock<Mutex<T>>, [T; N], tuples) and the fields of
+    the workspace's own structs, transitively"""
+    seen, work = set(), [ty.strip()]
+    while work:
+        t = work.pop()
+        if t in seen or not t:
+            continue
+        seen.add(t)
+        if t.startswith("[") and t.endswith("]"):
+            work.append(t[1:-1].rsplit(";", 1)[0].strip())
+            continue
+        if t.startswith("(") and t.endswith(")"):
+            work.extend(_split_generics("X<" + t[1:-1] + ">")[1])
+            continue
+        head, args = _split_generics(t)
+        work.extend(a for a in args if not a.startswith("'"))
+        for c in prog.crates.values():
+            for a in c.adts:
+                ap = str(a.get("path") or "")
+                if ap == head or ap.endswith("::" + head) or head.endswith("::" + ap):
+                    for v in a.get("variants", []):
+                        for f in v.get("fields", []):
+                            work.append(str(f.get("ty")).strip())
+    return seen
+
+
+def _recv_type(b, t):
+    """type behind the reference passed as the first argument of a call"""
+    a = t["args"][0] if t["args"] else None
+    if a is None or a.get("k") not in ("copy", "move") or a["place"].get("p"):
+        return None
+    ty = str(b.locals[a["place"]["l"]]["ty"])
+    while ty.startswith("&"):
+        ty = ty[1:].lstrip()
+        if ty.startswith("'"):
+            ty = ty.split(" ", 1)[1] if " " in ty else ty
+        if ty.startswith("mut "):
+            ty = ty[4:]
+    return ty
+
+
+def _static_holding(prog, statics, refd, b, t):
+    """a process-wide static, referenced from the reachable set, whose value contains something of the type the call's
+    receiver has (`static GEN: PriorityGen` with a `Mutex<Rng>` field, locked in `PriorityGen::draw(&self)`): the access is
+    attributed to that static by type"""
+    rt = _recv_type(b, t)
+    if rt is None:
+        return None
+    for sk in sorted(refd):
+        s_ = statics.get(sk)
+        if s_ is None or s_["thread_local"] or s_.get("freeze") is not False:
+            continue
+        inner = _contained_types(prog, str(s_["ty"]))
+        if rt in inner or any(x.endswith("::" + rt) or rt.endswith("::" + x) for x in inner if "<" not in x and "<" not in rt):
+            return sk
+    return None
 
 
 def _arg_static(b, t):
